@@ -115,7 +115,7 @@ pub fn run(ctx: &mut Ctx, o: &AttackOpts) {
             pair += 1;
             let fmts: Vec<Fmt> = if o.both_formats && msg::jwt_three_parts(&m2.jwt) { vec![fmt, fmt.other()] } else if msg::jwt_three_parts(&m2.jwt) { vec![fmt] } else { vec![Fmt::Compact] };
             for f in fmts {
-                let raw = msg::render(m2, f, if pair % 3 == 0 { JsonVariant::KbNull } else { JsonVariant::KbAbsent });
+                let raw = msg::render(m2, f, [JsonVariant::KbNull, JsonVariant::KbAbsent, JsonVariant::KbEmpty, JsonVariant::Extra][(pair % 4) as usize]);
                 verify(
                     ctx,
                     &VerifyArgs {
